@@ -102,7 +102,7 @@ def gen_rule(rng, kind=None, kinds=None):
         r["Target"] = gen_path(rng)
     elif kind == "capability":
         r.update(qual(rng))
-        r["Names"] = subset(rng, CAPS, 1, 3)
+        r["Names"] = subset(rng, CAPS, 0 if rng.random() < 0.1 else 1, 3)
     elif kind == "network":
         r.update(qual(rng))
         r["Domain"] = rng.choice(DOMAINS + [""])
@@ -149,7 +149,7 @@ def gen_rule(rng, kind=None, kinds=None):
         r["Type"] = rng.choice(["", "stream", "dgram", "seqpacket"])
         r["Protocol"] = ""      # (protocol=, attr= and opt= are rejected by the reference parser: outside the domain of valid rules)
         r["Address"] = rng.choice(["", "none", "@/tmp/.X11-unix/X0", "@/tmp/.ICE-unix/@{int}"])
-        r["Label"] = rng.choice(["", "foo"]) if not peer else ""
+        r["Label"] = rng.choice(["", "foo"]) if not peer or rng.random() < 0.3 else ""
         r["Attr"] = ""
         r["Opt"] = ""
         r["PeerLabel"] = rng.choice(PEERS + [""]) if peer else ""
